@@ -11,6 +11,7 @@
 package main
 
 import (
+	"regexp"
 	"bufio"
 	"encoding/json"
 	"fmt"
@@ -194,6 +195,8 @@ func build() {
 	}
 }
 
+var digitRuns = regexp.MustCompile(`[0-9]+`)
+
 func cleanup() {
 	if scratch != "" {
 		os.RemoveAll(scratch)
@@ -326,6 +329,7 @@ func (a *agg) add(r Result) {
 			if len(v) > 120 {
 				v = v[:120]
 			}
+			v = digitRuns.ReplaceAllString(v, "N") // "index out of range [N] with length N": one class
 			a.panicClasses[v+" @ "+p.Site]++
 		}
 	}
